@@ -21,11 +21,16 @@ class Scenario:
 def target_expr(rng, cfg, mode=None):
     nodes = cfg.all_nodes()
     bydev = {d.name: [v for v in cfg.truth[d.name].values() if v] for d in cfg.devs}
-    mode = mode or rng.choice(["all", "onedev", "single", "subset", "subset", "dup", "alias", "two-devs"])
+    mode = mode or rng.choice(["all", "onedev", "single", "subset", "subset", "dup", "alias", "two-devs", "dupfill"])
     if mode == "all": t = list(nodes)
     elif mode == "onedev": t = list(bydev[rng.choice(cfg.devs).name])
     elif mode == "single": t = [rng.choice(nodes)]
     elif mode == "dup": t = [rng.choice(nodes)] * 2
+    elif mode == "dupfill" and len(nodes) >= 2:
+        # a strict subset, names repeated until the list has as many ENTRIES as there are configured nodes (a count is not a cover)
+        sub = rng.sample(nodes, rng.randint(1, len(nodes) - 1))
+        t = [sub[i % len(sub)] for i in range(len(nodes))]
+        rng.shuffle(t)
     elif mode == "alias" and cfg.aliases:
         a = rng.choice(cfg.aliases); return a[0], pmgen.expand(a[1]), mode
     elif mode == "two-devs":
